@@ -360,3 +360,31 @@ def canary(ctx, what, module, records, corrupt, cfg=None):
         raise ToolError(f"VACUOUS JUDGE: {module} accepted a corrupted observation ({what})")
     ctx.notes.append(f"canary {what}: corrupted observation rejected by {module} ({len(mism)} mismatch)")
     return True
+
+
+def replay(path):
+    """Generic replay of a violation file written by Ctx.finish(): shows the recorded cell / symptom / expectation and re-expands every recorded
+    source text with the real derive of the CURRENT /repo working tree (both back-ends), so that the reader sees what the code does now."""
+    d = json.loads(Path(path).read_text())
+    print(f"property={d['property']} symptom={d['symptom']} cell={json.dumps(d['cell'], sort_keys=True)} cases_recorded={d['count']}")
+    n = 0
+    for c in d.get("cases", []):
+        srcs = []
+        for k in ("src", "joint", "projected", "bare", "respelled"):
+            if isinstance(c.get(k), str):
+                srcs.append((k, c[k]))
+        for k in ("srcs",):
+            if isinstance(c.get(k), list):
+                srcs += [(f"{k}[{i}]", x) for i, x in enumerate(c[k])]
+        print("-" * 100)
+        for k in ("input", "instrs", "g", "expected", "observed", "report", "errors", "bad_paths", "verdicts"):
+            if k in c:
+                print(f"{k}: {json.dumps(c[k])[:1500]}")
+        for label, src in srcs:
+            for be in ("syn1", "syn2"):
+                r = expand([{"id": 0, "src": src}], be)[0]["runs"][0]
+                print(f"[{label}] {be}: {src[:400]}\n    -> verdict={r['verdict']} " + (r.get('out', '')[:900] if r['verdict'] == 'ok' else json.dumps(r.get('msgs') or r.get('site'))[:600]))
+        if "program" in c:
+            print("generated program (compiled with the real proc-macro by the check; re-run the check to execute it):\n" + c["program"][:3000])
+        n += 1
+    return 0
